@@ -18,7 +18,7 @@ RULE = ("all nine criteria-filter classes (GT, GE, LT, LE, EQ, NE, In, NotIn, fu
 
 ARITH = {"FilterGT": 0, "FilterGE": 1, "FilterLT": 2, "FilterLE": 3, "FilterEQ": 4, "FilterNE": 5}
 SETS = {"FilterIn": 6, "FilterNotIn": 7}
-PAL = {"gt2": 0, "le3": 1, "ne1": 2, "pos": 3}
+PAL = {"gt2": 0, "le3": 1, "ne1": 2, "pos": 3, "gt2_int": 0, "le3_int": 1, "ne1_int": 2, "pos_int": 3}
 ABSENT = ["ZARAZA", "missing", "C99"]
 
 
